@@ -26,6 +26,9 @@ func VerifRun(hasRules bool, raw RuleRawList, req *bfe_basic.Request, backend bf
 	}
 	ret, resp := m.corsPreflightHandler(req)
 	if ret == bfe_module.BfeHandlerResponse && resp != nil {
+		if resp.StatusCode != bfe_http.StatusNoContent {
+			return "Pstatus", resp.Header, nil // a preflight answer must be 204
+		}
 		return "P", resp.Header, nil
 	}
 	if ret != bfe_module.BfeHandlerGoOn {
